@@ -90,3 +90,12 @@ PROPS = {
                         "Ed25519->X25519 conversion correctness is curve mathematics (sampled: 24/24 pairs; 2 in-Coq KATs), not proved"],
     },
 }
+
+# per-property configuration modules: tools/props/<ID>.py defining CFG (same shape as above)
+import glob as _glob, importlib.util as _ilu, os as _os
+for _f in sorted(_glob.glob(_os.path.join(_os.path.dirname(_os.path.abspath(__file__)), "props", "C??.py"))):
+    _spec = _ilu.spec_from_file_location("propcfg_" + _os.path.basename(_f)[:-3], _f)
+    _m = _ilu.module_from_spec(_spec)
+    _m.J = J
+    _spec.loader.exec_module(_m)
+    PROPS[_os.path.basename(_f)[:-3]] = _m.CFG
